@@ -25,7 +25,7 @@ m = {
 eng = {}
 for pid in sorted(PROPS):
     P = PROPS[pid]
-    for (e, _, _) in P['engines']:
+    for e in [x[0] for x in P['engines']]:
         eng.setdefault(e, []).append(pid)
     m['checks'].append({
         'property_id': pid,
@@ -33,7 +33,7 @@ for pid in sorted(PROPS):
         'thorough_cmd': './check %s --tier thorough' % pid,
         'evidence_file': 'evidence/%s.json' % pid,
         'replay_cmd_template': './check %s --replay {path}' % pid,
-        'engine': '+'.join(e for (e, _, _) in P['engines']),
+        'engine': '+'.join(x[0] for x in P['engines']),
         'level_claimed': {'category': 'proof', 'text': P['level_text'], 'design_ref': P.get('design_ref', 'DESIGN.md section 4 ' + pid)},
         'level_note': P['level_note'],
         'technique': P.get('technique', 'Rocq (Coq 8.16) theorems over an executable Gallina model + differential correspondence with the Go code'),
